@@ -122,6 +122,7 @@ type brokerConn struct {
 	parsed  int       // bytes of conn.written already parsed
 	queue   []readAns // answers ready for delivery
 	gotConn bool
+	silent  bool // the broker stopped sending in the middle of a packet
 }
 
 type scenario struct {
@@ -143,6 +144,7 @@ type scenario struct {
 	wscript        []writeAns // when non-empty: the fate of the next writes
 	noFaults       bool       // suspend random faults (scripted parts of a history)
 	sscript        []bool     // scripted outcomes of the next Persistence operations
+	silentAfter    bool       // after the last injected chunk the broker goes silent (no EOF)
 	inject         [][]byte   // broker packets to deliver next, before anything else
 }
 
@@ -441,9 +443,30 @@ func (sc *scenario) hostilePacket() []byte {
 // onRead serves the next read of the connection.
 func (sc *scenario) onRead(c *simConn, armed bool, want int) readAns {
 	b := sc.bc(c)
+	if b.silent {
+		// nothing comes any more: a read with a deadline waits for it (virtual time), one
+		// without sees the connection end
+		if !armed {
+			return readAns{kind: rEOF}
+		}
+		d := time.Until(c.deadlineR)
+		c.mu.Unlock()
+		if d > 0 {
+			time.Sleep(d)
+		}
+		c.mu.Lock()
+		if c.closed {
+			return readAns{kind: rClosed}
+		}
+		return readAns{kind: rTimeout}
+	}
 	if len(sc.inject) != 0 && b.gotConn && len(b.queue) == 0 {
 		p := sc.inject[0]
 		sc.inject = sc.inject[1:]
+		if len(sc.inject) == 0 && sc.silentAfter {
+			sc.silentAfter = false
+			b.silent = true // what was injected last is all the broker ever sends
+		}
 		return readAns{kind: rData, data: p}
 	}
 	if len(b.queue) != 0 {
@@ -471,6 +494,14 @@ func (sc *scenario) onRead(c *simConn, armed bool, want int) readAns {
 	}
 	// nothing queued: the broker speaks up or the connection ends
 	switch k := sc.r.intn(1000); {
+	case sc.opts.hostile && k < 20:
+		// a packet that stops in the middle, then silence
+		p := sc.inboundPublish()
+		if len(p) > 3 {
+			b.silent = true
+			return readAns{kind: rData, data: p[:2+sc.r.intn(len(p)-2)]}
+		}
+		return readAns{kind: rData, data: p}
 	case sc.opts.hostile && k < 150:
 		return readAns{kind: rData, data: sc.hostilePacket()}
 	case sc.budgetIn > 0 && k < 700:
@@ -636,7 +667,7 @@ func (h *hist) spawn(op string, f func(quit <-chan struct{}) error) {
 	h.pendingOp = op
 	rid := h.nextR
 	h.nextR++
-	p := &parkedReq{rid: rid, quit: make(chan struct{}), result: make(chan error, 1), locked: !h.online()}
+	p := &parkedReq{rid: rid, quit: make(chan struct{}), result: make(chan error, 1), locked: !h.online() || h.writeFailed}
 	go func() { p.result <- safelyNow(func() error { return f(p.quit) }) }()
 	h.settle()
 	select {
@@ -827,6 +858,18 @@ func coqZ(n int) string {
 }
 
 func coqCfg(o seqOpts, cfg *mqtt.Config) string {
+	norm := func(n int) int {
+		if n < 0 || n > 0x3fff {
+			return 0x4000
+		}
+		return n
+	}
+	return coqCfgMax(o, cfg, norm(o.max1), norm(o.max2))
+}
+
+// coqCfgMax renders the configuration with the publish limits as given: after InitSession
+// these are the limits the client itself applied (Client.Config is the applied setting).
+func coqCfgMax(o seqOpts, cfg *mqtt.Config, max1, max2 int) string {
 	pass := "None"
 	if cfg.Password != nil {
 		pass = "(Some " + coqBytes(cfg.Password) + ")"
@@ -835,12 +878,6 @@ func coqCfg(o seqOpts, cfg *mqtt.Config) string {
 	if cfg.Will.Message != nil {
 		will = fmt.Sprintf("(Some {| will_topic := %s; will_msg := %s; will_retain := %s; will_alo := %s; will_eo := %s |})",
 			coqString(cfg.Will.Topic), coqBytes(cfg.Will.Message), coqBool(cfg.Will.Retain), coqBool(cfg.Will.AtLeastOnce), coqBool(cfg.Will.ExactlyOnce))
-	}
-	norm := func(n int) int {
-		if n < 0 || n > 0x3fff {
-			return 0x4000
-		}
-		return n
 	}
 	// newClient's normalisation of the reconnect window
 	wmin, wmax := cfg.ReconnectWaitMin, cfg.ReconnectWaitMax
@@ -854,7 +891,7 @@ func coqCfg(o seqOpts, cfg *mqtt.Config) string {
 		wmax = wmin
 	}
 	return fmt.Sprintf("(mkScfg {| cfg_user := %s; cfg_pass := %s; cfg_will := %s; cfg_keepalive := %d; cfg_clean := %s |} %s %d %d %d %d %d)",
-		coqString(cfg.UserName), pass, will, cfg.KeepAlive, coqBool(cfg.CleanSession), coqBool(o.pause), norm(o.max1), norm(o.max2), o.bufSize,
+		coqString(cfg.UserName), pass, will, cfg.KeepAlive, coqBool(cfg.CleanSession), coqBool(o.pause), max1, max2, o.bufSize,
 		wmin.Milliseconds(), wmax.Milliseconds())
 }
 
@@ -923,6 +960,8 @@ func newHist(r *rng, o seqOpts, stats map[string]int) (h *hist, initTerm string,
 		return h, fmt.Sprintf("Hist %s %s %s %d []", h.cfgTerm, coqString(h.cid), coqEvents(h.initEvs), classOf(err)), false
 	}
 	h.client = client
+	// the limits as the client applied them (C17: never beyond the identifier space)
+	h.cfgTerm = coqCfgMax(o, &h.cfg, client.AtLeastOnceMax, client.ExactlyOnceMax)
 	return h, "", true
 }
 
@@ -1141,8 +1180,10 @@ func (h *hist) randomOps(r *rng, o seqOpts) {
 	topics := []string{"a", "b/c", "t"}
 	for i := 0; i < o.steps && !h.closed; i++ {
 		k := r.intn(100)
-		if h.writeFailed && (k >= 34 && k < 44 || k >= 70 && k < 84) {
-			k = 0 // requests would spin in lockWrite until ReadSlices runs
+		if h.writeFailed && (k >= 34 && k < 44 || k >= 70 && k < 84) && r.chance(1, 2) {
+			// mostly let ReadSlices notice the failed write first; otherwise the request polls in
+			// lockWrite (the hook lets virtual time pass, so it counts as waiting) until it does
+			k = 0
 		}
 		if !h.online() && !h.wasClosed && (k >= 34 && k < 44 || k >= 70 && k < 84) && r.chance(3, 4) {
 			k = 0 // mostly connect first
